@@ -425,6 +425,14 @@ def main():
         scale = 1
         for attempt in range(2):
             cases, dists = run_suites(prop, tier, seed + attempt, scale)
+            if attempt == 0:
+                # a generator branch the check requires was not reached with this seed: draw more before judging
+                have = {t for c in cases for t in c.get("tags", [])}
+                lacking = [t for t in cfg.get("required_tags", []) if not any(k == t or k.startswith(t) for k in have)]
+                if lacking:
+                    more, d2 = run_suites(prop, tier, seed + 101, 3)
+                    cases += more
+                    dists += d2
             codes, eval_errors = evaluate(prop, cases)
             mism = [c for c, k in zip(cases, codes) if k is not None and k & 1]
             monf = [c for c, k in zip(cases, codes) if k is not None and k & 2]
@@ -528,8 +536,10 @@ def main():
         "known_findings_hit": known_lines,
         "cases_matching_findings_of_other_properties": len(foreign),
     }
-    os.makedirs(os.path.join(VERIF, "evidence"), exist_ok=True)
-    with open(os.path.join(VERIF, "evidence", "%s.json" % prop), "w") as f:
+    # evidence describes runs against /repo; a self-test against a scratch copy keeps its own
+    evdir = os.path.join(VERIF, "evidence") if REPO == "/repo" else os.path.join(BUILD, "evidence_selftest")
+    os.makedirs(evdir, exist_ok=True)
+    with open(os.path.join(evdir, "%s.json" % prop), "w") as f:
         json.dump(ev, f, indent=1)
 
     for line in known_lines:
